@@ -65,6 +65,12 @@ CORPUS = [
          old="\t\tdi += lLen + 2\n\t\tanchor = si\n", new="\t\tdi += lLen + 2\n\t\tanchor = si\n\t\tif di > 40 {\n\t\t\tdst[3] = 0\n\t\t}\n"),
     dict(name="C01-benign-rename-fast-compressor-locals", kind="benign", props=["C01", "C10"], file="internal/lz4block/block.go",
          regex=r"\b(lLen)\b", new="litLen"),
+    dict(name="C01-benign-hex-literals-to-decimal", kind="benign", props=["C01"], file="internal/lz4block/block.go",
+         regex=r"\b0xF\b", new="15"),
+    dict(name="C01-hc-offset-off-by-one", kind="break", props=["C01"], file="internal/lz4block/block.go",
+         old="\t\t\toffset = si - next\n", new="\t\t\toffset = si - next + 1\n"),
+    dict(name="C01-hc-last-length-run-one-short", kind="break", props=["C01"], file="internal/lz4block/block.go",
+         old="lLen -= 0xF\n\t\tfor ; lLen >= 0xFF; lLen -= 0xFF {", new="lLen -= 0xF\n\t\tfor ; lLen > 0xFF; lLen -= 0xFF {"),
     dict(name="C04-portable-dict-index-off-by-one", kind="break", props=["C04", "C12"], file="internal/lz4block/decode_other.go",
          old="fromDict := dict[uint(len(dict))+di-offset:]", new="fromDict := dict[uint(len(dict))+di-offset+1:]"),
     dict(name="C04-asm-interior-match-short", kind="break", props=["C04", "C12"], file="internal/lz4block/decode_amd64.s",
